@@ -66,6 +66,15 @@ type e4Req struct {
 	InOutage bool
 }
 
+type e4ConnEnd struct {
+	ID         int
+	States     []vStateEv
+	Closed     bool // transport closed by either side
+	DoneClosed bool
+	Connected  bool
+	Err        error
+}
+
 type e4OnErr struct {
 	Seq int64
 	Err error
@@ -96,6 +105,7 @@ type e4Result struct {
 	ProtoErrs     []string
 	SubPkts       []vEvent
 	Samples       []c16Sample
+	ConnEnd       []e4ConnEnd // per connection, as it was when the run ended (before teardown)
 	ConnectErr    error
 	ConnectReturn bool
 	DisconnectErr error
@@ -572,6 +582,25 @@ func e4Run(c e4Case) (res *e4Result) {
 	b.mu.Unlock()
 	res.Dials = d.dialsSnapshot()
 	res.Conns = d.connsSnapshot()
+	for _, bc := range res.Conns {
+		ce := e4ConnEnd{ID: bc.id, Err: bc.cli.Err()}
+		bc.stMu.Lock()
+		ce.States = append([]vStateEv{}, bc.states...)
+		bc.stMu.Unlock()
+		lc, pc := bc.mc.isClosed()
+		ce.Closed = lc || pc
+		if dch := bc.cli.Done(); dch != nil {
+			select {
+			case <-dch:
+				ce.DoneClosed = true
+			default:
+			}
+		}
+		b.mu.Lock()
+		ce.Connected = bc.connected
+		b.mu.Unlock()
+		res.ConnEnd = append(res.ConnEnd, ce)
+	}
 	return res
 }
 
